@@ -29,6 +29,7 @@ type vTLSRun struct {
 	rawOut   []byte // bytes the server put on the raw connection
 	innerOut []byte // bytes the server sent inside TLS (plaintext as the client sees it)
 	closed   bool
+	escaped  bool // a panic escaped serve (recovered by the harness, the embedder)
 	rawReadsAfterS int
 }
 
@@ -40,8 +41,8 @@ func vServeTLS(srv *Server, first, inner []byte) vTLSRun {
 	if vSymbolic() {
 		raw := vNewConn(first)
 		raw.inner = vNewConn(inner)
-		vServeRecovered(srv, raw)
-		return vTLSRun{rawOut: raw.out, innerOut: raw.inner.out, closed: raw.closed >= 1}
+		escaped := vServeRecovered(srv, raw)
+		return vTLSRun{rawOut: raw.out, innerOut: raw.inner.out, closed: raw.closed >= 1, escaped: escaped}
 	}
 	return vServeTLSNative(srv, first, inner)
 }
@@ -87,7 +88,7 @@ func vSelfSigned() tls.Certificate {
 
 func vServeTLSNative(srv *Server, first, inner []byte) vTLSRun {
 	if srv.TLSConfig != nil && len(srv.TLSConfig.Certificates) > 0 {
-		srv.TLSConfig = &tls.Config{Certificates: []tls.Certificate{vSelfSigned()}}
+		srv.TLSConfig = &tls.Config{Certificates: []tls.Certificate{vSelfSigned()}, ClientAuth: srv.TLSConfig.ClientAuth}
 	}
 	sc, cc := net.Pipe()
 	tap := &vTap{Conn: sc}
@@ -121,7 +122,7 @@ func vServeTLSNative(srv *Server, first, inner []byte) vTLSRun {
 			}
 		}
 	}()
-	vServeRecovered(srv, tap)
+	run.escaped = vServeRecovered(srv, tap)
 	sc.Close()
 	<-done
 	tap.mu.Lock()
@@ -189,6 +190,14 @@ func VerifH11() {
 		tlsCfg = &tls.Config{}
 	case 2:
 		tlsCfg = &tls.Config{Certificates: []tls.Certificate{{}}}
+		// CLIENTAUTH=1: the embedder may ask for (but not insist on) a client
+		// certificate; the client of this harness never presents one
+		if vParam("CLIENTAUTH", 0) == 1 {
+			tlsCfg.ClientAuth = []tls.ClientAuthType{tls.NoClientCert, tls.RequestClientCert, tls.VerifyClientCertIfGiven}[vChoose(3)]
+			if tlsCfg.ClientAuth != tls.NoClientCert {
+				vReach("client-certificate-requested-none-presented")
+			}
+		}
 	}
 	if !direct && tlsCfg != nil {
 		opts = append(opts, TLSConfig(tlsCfg))
@@ -249,6 +258,7 @@ func VerifH11() {
 	if cfgKind == 2 {
 		// with certificates: 'S', then everything inside TLS
 		run := vServeTLS(srv, vCat(vSSLRequest, stuffed), session)
+		vAssert("no-panic", !run.escaped)
 		vAssert("ssl-accepted-with-single-S", len(run.rawOut) >= 1 && run.rawOut[0] == 'S')
 		vAssert("nothing-but-TLS-after-S", vOnlyTLSRecords(run.rawOut[1:]))
 		if repeatInside {
